@@ -287,11 +287,11 @@ def replayTrace (P : KV.GroupRound.Params) (w : Nat) : KV.GroupRound.St → List
         | _ => acc
       replayTrace P w s' es (k + 1) acc'
 
-def stepTrace (clusterS evS impl : String) : String :=
+def stepTrace (b : List Member → List Part → Asg) (clusterS evS impl : String) : String :=
   match parseList parsePart clusterS, (evS.splitOn "|").mapM parseRawEv with
   | some cluster, some evs =>
     let w := (evs.flatMap rawIds).foldl (fun a b => max a b.length) 0
-    let P : KV.GroupRound.Params := ⟨KV.GroupRound.balanceOf rangeAssign, cluster, List.reverse⟩
+    let P : KV.GroupRound.Params := ⟨KV.GroupRound.balanceOf b, cluster, List.reverse⟩
     match replayTrace P w {} evs 0 [] with
     | .ok obs => let model := if obs.isEmpty then "-" else "|".intercalate obs; answer model (impl == model)
     | .error k => answer s!"rejected-at-event-{k}" false
@@ -302,9 +302,12 @@ def step (line : String) : String :=
   | [req, impl] =>
     let ws := words req
     -- w<balancer> ops carry a 4th field: the subscribed topics the cluster does not have
-    let missS := if ws.length == 4 then ws.getD 3 "-" else "-"
-    match (if ws.length == 4 then ws.take 3 else ws) with
-    | ["ltrace", c, e] => stepTrace c e impl
+    let isW := ws.length == 4 && (ws.getD 0 "").startsWith "w"
+    let missS := if isW then ws.getD 3 "-" else "-"
+    match (if isW then ws.take 3 else ws) with
+    | ["ltrace", c, e] => stepTrace rangeAssign c e impl
+    | ["ltrace2", "range", c, e] => stepTrace rangeAssign c e impl
+    | ["ltrace2", "rr", c, e] => stepTrace rrAssign c e impl
     | "abytes" :: _ => stepWire (words req) impl
     | "aread" :: _ => stepWire (words req) impl
     | "mbytes" :: _ => stepWire (words req) impl
